@@ -115,6 +115,18 @@ class C06Prop(EnumProp):
                 arch = sw.op(op).get("archive_path")
                 return oracles.durable_violations(scn, op, git, before, snap, inv.trace, sw.dst / "proj", arch)
 
+            if enum.get("mode") == "signal" and op["op"] == "run":
+                # the other way a command ends early: SIGINT / SIGTERM at enumerated interpreter check points (the
+                # abort path runs Conductor's own clean-up code, which a kill never does)
+                def evaluate_sig(k, sig, inv, snap, sw):
+                    return oracles.durable_violations(scn, op, git, before, snap, inv.trace, sw.dst / "proj", None)
+
+                recs, total, exh = E.signal_enumeration(world, op, work, enum["budget"], r, evaluate_sig)
+                for rec in recs:
+                    rec.update(step=i, op=op["op"], mode="signal")
+                records.extend(recs)
+                info.update(total=total, exhaustive=exh, tried=len(recs), op="run (signal)")
+                return None
             recs, total, exh = E.kill_enumeration(world, op, work, enum["budget"], r, evaluate)
             for rec in recs:
                 rec.update(step=i, op=op["op"])
